@@ -5,6 +5,10 @@ VERIF = os.path.dirname(os.path.dirname(os.path.abspath(__file__)))
 ALL = ["C%02d" % i for i in range(1, 21)]
 
 CLAIMED = {
+ "C01": dict(
+    text="Generated die descriptions on dyadic and decimal lattices (regions and fixed netlist rectangles packed by construction so that they touch each other and the border; tree / YAML text / file / WxH forms), judged in Fraction arithmetic: reported regions inside the die, pairwise disjoint, areas summing to the die, every Hanan cell of the exact description covered exactly once, inputs reported unchanged with their tag; and the same descriptions with one injected overlap (>= one lattice cell) or overhang (>= one unit) must be rejected.",
+    note="Trusted: exact geometry module. Float results compared with 1e-9 relative tolerances; rejection = any exception. Valid descriptions include decimal steps (0.1, 0.3, 0.0025, ...) on small dies where rounding shows.",
+    technique="property-based testing (Hypothesis) against an exact-arithmetic tiling oracle, plus fault-injected invalid inputs", ref="4/C01"),
  "C06": dict(
     text="Generated rectangle lists (orthogons with several branches per side, near misses by gap / overhang / overlap, repeated rectangles, random lists, every order; dyadic and decimal lattices) passed to create_stog directly and through Netlist loading, judged by a brute-force search over all candidate trunks on the exact lattice coordinates; verdict, trunk-first, side roles, no-role-otherwise and permutation/immutability are all asserted.",
     note="Trusted: the exact-geometry abutment predicate (15 lines, Fractions). Lattice unit >= 0.0025 so that contacts and misses are far from FRAME's epsilons.",
